@@ -336,11 +336,13 @@ func c06Workers(p *Prog, r *Report) {
 				// allocation made inside the loop (idx := idx, or a per-iteration loop variable) whose only
 				// stores are of the loop index
 				distinctFV := map[*ssa.FreeVar]bool{}
+				perIterFV := map[*ssa.FreeVar]bool{} // a variable of the loop body: every worker captures its own
 				for i, bnd := range mc.Bindings {
 					al, ok := bnd.(*ssa.Alloc)
 					if !ok || i >= len(cl.FreeVars) || !inLoop(al.Block()) {
 						continue
 					}
+					perIterFV[cl.FreeVars[i]] = true
 					okAll, n := true, 0
 					for _, rf := range refs(al) {
 						if st, ok := rf.(*ssa.Store); ok && st.Addr == ssa.Value(al) {
@@ -387,7 +389,27 @@ func c06Workers(p *Prog, r *Report) {
 								if _, isPtr := fv.Type().Underlying().(*types.Pointer); isPtr {
 									bad = append(bad, "captured "+fv.Name()+" passed to "+n)
 								}
+								continue
 							}
+							// the value of a captured variable that holds references (a map, a pointer, a struct with a
+							// map field …) handed to a function of the repository that is not free of side effects:
+							// every worker works on the same object
+							ld, ok := a.(*ssa.UnOp)
+							if !ok || ld.Op != token.MUL {
+								continue
+							}
+							fv, ok := ld.X.(*ssa.FreeVar)
+							if !ok || !holdsReference(ld.Type(), 0) || perIterFV[fv] {
+								continue
+							}
+							if strings.HasPrefix(n, "(*sync.") || strings.HasPrefix(n, "sync.") {
+								continue
+							}
+							cal := calleeOf(&x.Call)
+							if cal == nil || cal.Pkg == nil || !InRepo(cal.Pkg.Pkg.Path()) || p.pureFunc(cal) {
+								continue
+							}
+							bad = append(bad, "captured "+fv.Name()+" ("+types.TypeString(ld.Type(), qualNone)+", which holds references) is handed to "+n+" by every worker")
 						}
 						if bi, ok := x.Call.Value.(*ssa.Builtin); ok && bi.Name() == "append" && fromFreeVar(x.Call.Args[0]) {
 							bad = append(bad, "append to captured slice "+sk(x.Call.Args[0]))
@@ -872,4 +894,26 @@ func c06NamedWorker(p *Prog, r *Report, f *ssa.Function, g *ssa.Go, wk *ssa.Func
 	}
 	r.Check("R06c", key+" WaitGroup protocol", instrPos(g), okWG && doneInWorker,
 		"need wg.Add before every go statement (once with the count, or per iteration), wg.Done in the worker, and wg.Wait before every return that follows the go statement")
+}
+
+// holdsReference: a value of type t shares memory with its copies (maps, pointers, slices, channels, functions,
+// interfaces, or a struct/array that contains one).
+func holdsReference(t types.Type, depth int) bool {
+	if depth > 6 {
+		return true
+	}
+	switch u := t.Underlying().(type) {
+	case *types.Basic:
+		return false
+	case *types.Struct:
+		for i := 0; i < u.NumFields(); i++ {
+			if holdsReference(u.Field(i).Type(), depth+1) {
+				return true
+			}
+		}
+		return false
+	case *types.Array:
+		return holdsReference(u.Elem(), depth+1)
+	}
+	return true
 }
